@@ -209,18 +209,22 @@ def run(ck):
     ck.ob('PROV-rebuild', mod.loc(fl[0]), len(ri) == 1 and u(ri[0].value) == 'max(molecule) + 1', 'rebuilt atoms get fresh keys above all existing ones', key='PROV-rebuild|keys')
 
     # a rebuilt atom is the block atom: the block atom's attributes win over the attributes common to the residue
-    nodedefs = [s_ for s_ in body if isinstance(s_, ast.Assign) and u(s_.targets[0]) == 'node']
-    upds = [s_ for s_ in body if isinstance(s_, ast.Expr) and call_attr(s_.value) == 'update' and u(s_.value.func.value) == 'node']
-    resloop = [l for l in body if isinstance(l, ast.For) and u(l.iter) == 'ref_residue.items()']
+    # (the statements from the new atom's attribute dictionary up to its insertion are interpreted on a sample: spelling-independent)
+    from .. import interp
     addn = [s_ for s_ in body if isinstance(s_, ast.Expr) and call_attr(s_.value) == 'add_node' and u(s_.value.func.value) == 'molecule']
-    ok = len(nodedefs) == 1 and u(nodedefs[0].value) == '{}' and len(upds) == 1 and u(upds[0].value.args[0]) == 'ref_node' and len(resloop) == 1 and len(addn) == 1 and \
-        body.index(nodedefs[0]) < body.index(resloop[0]) < body.index(upds[0]) < body.index(addn[0])
+    nodedefs = [s_ for s_ in body if isinstance(s_, ast.Assign) and u(s_.targets[0]) == 'node']
+    ok = len(addn) == 1 and len(nodedefs) >= 1 and u(addn[0].value) == 'molecule.add_node(res_idx, **node)' and body.index(nodedefs[0]) < body.index(addn[0])
     if ok:
-        rnd = [s_ for s_ in body if isinstance(s_, ast.Assign) and u(s_.targets[0]) == 'ref_node']
-        dels = [s_ for s_ in ast.walk(fl[0]) if isinstance(s_, ast.Delete) and u(s_.targets[0]) == "ref_node['resid']"]
-        later = [s_ for s_ in body[body.index(upds[0]) + 1:body.index(addn[0])] if isinstance(s_, ast.Assign) and u(s_.targets[0]).startswith('node[')]
-        ok = len(rnd) == 1 and u(rnd[0].value) == 'reference.nodes[ref_idx].copy()' and len(dels) == 1 and [u(s_.targets[0]) for s_ in later] == ["node['atomid']"] and \
-            u(addn[0].value) == 'molecule.add_node(res_idx, **node)'
+        env_ = {'ref_residue': {'chain': 'Q', 'resid': 17, 'resname': 'XYZ', 'insertion_code': 'C', 'match': {1: 2}, 'found': 'F', 'reference': 'R', 'nnodes': 3, 'nedges': 2, 'density': 0.5},
+                'reference.nodes': {5: {'atomname': 'CB', 'element': 'C', 'resid': 99, 'resname': 'BLOCK', 'charge': 0.1}}, 'ref_idx': 5, 'res_idx': 40, 'match': {}}
+        try:
+            interp.run_stmts(body[body.index(nodedefs[0]):body.index(addn[0])], env_)
+            got = env_.get('node')
+            ok = isinstance(got, dict) and got.get('atomname') == 'CB' and got.get('element') == 'C' and got.get('resname') == 'BLOCK' and got.get('charge') == 0.1 and \
+                got.get('resid') == 17 and got.get('chain') == 'Q' and got.get('insertion_code') == 'C' and got.get('atomid') == 41 and \
+                env_['reference.nodes'][5].get('resid') == 99
+        except (interp.Unsupported, interp.Returned, KeyError, TypeError):
+            ok = False
     ck.ob('PROV-rebuild', mod.loc(fl[0]), ok, 'a rebuilt atom starts from the attributes shared by the residue and is then overwritten with the block atom\'s own attributes '
           '(name, element, ...; the block\'s resid excepted), so the block atom wins', key='PROV-rebuild|attributes')
     unrecognised_rules(ck, 'PROV-unrecognised')
